@@ -20,26 +20,38 @@ import (
 	"verifharness/lib/hx"
 )
 
-// hop: one fetched index handed to VerifyIndex.
+// hop: one fetched index handed to VerifyIndex. Root / FSig: "good" (a signature by the
+// trusted key that verifies), "bad" (one by another key under the trusted key id), "" (none).
 type hop struct {
-	Version int64 `json:"version"`
-	SigOK   bool  `json:"sigOK"`
-	Fresh   bool  `json:"fresh"`
+	Version int64  `json:"version"`
+	Root    string `json:"root"`
+	FSig    string `json:"fsig"`
+	Content int    `json:"content"` // identifies the content subtree (one connector named c<Content>)
+	Fresh   bool   `json:"fresh"`
 }
 
 type hcase struct {
-	M0      int64   `json:"m0"`      // mark persisted before the calls (0: no state file)
+	M0      int64   `json:"m0"`      // mark persisted before the calls (0 and H0 < 0: no state file)
+	H0      int     `json:"h0"`      // content on record before the calls, -1: none
 	Batches [][]hop `json:"batches"` // batches run one after the other; the calls of a batch run concurrently
 }
 
 func (o hop) coq() string {
-	return fmt.Sprintf("(mkH %s %s %s true)", hx.Z(o.Version), hx.Bool(o.SigOK), hx.Bool(o.Fresh))
+	return fmt.Sprintf("(mkH %s %s %s %d %s true)", hx.Z(o.Version), hx.Bool(o.Root == "good"), hx.Bool(o.FSig == "good"),
+		o.Content, hx.Bool(o.Fresh))
+}
+
+func hashCoq(h int) string {
+	if h < 0 {
+		return "None"
+	}
+	return fmt.Sprintf("(Some %d)", h)
 }
 
 type signer struct {
-	priv, bad ed25519.PrivateKey
-	anchors   index.TrustAnchors
-	keyID     string
+	root, fresh, bad ed25519.PrivateKey
+	anchors          index.TrustAnchors
+	rootID, freshID  string
 }
 
 func newSigner(seed byte) *signer {
@@ -47,33 +59,64 @@ func newSigner(seed byte) *signer {
 		s := sha256.Sum256([]byte{b, 'c', '1', '9'})
 		return ed25519.NewKeyFromSeed(s[:])
 	}
-	s := &signer{priv: mk(seed), bad: mk(seed + 1)}
-	id, err := index.KeyID(s.priv.Public().(ed25519.PublicKey))
+	s := &signer{root: mk(seed), fresh: mk(seed + 1), bad: mk(seed + 2)}
+	var err error
+	s.rootID, err = index.KeyID(s.root.Public().(ed25519.PublicKey))
 	must(err)
-	s.keyID = id
-	s.anchors = index.TrustAnchors{Roots: map[string]ed25519.PublicKey{id: s.priv.Public().(ed25519.PublicKey)}}
+	s.freshID, err = index.KeyID(s.fresh.Public().(ed25519.PublicKey))
+	must(err)
+	s.anchors = index.TrustAnchors{
+		Roots:     map[string]ed25519.PublicKey{s.rootID: s.root.Public().(ed25519.PublicKey)},
+		Freshness: map[string]ed25519.PublicKey{s.freshID: s.fresh.Public().(ed25519.PublicKey)}}
 	return s
 }
 
-// envelope: a root-signed index of the given version; a bad signature is one made with another
-// key under the trusted key id; a stale index carries a timestamp older than the staleness window.
+func contentJSON(c int) []any {
+	return []any{map[string]any{"name": fmt.Sprintf("c%d", c),
+		"publisher": map[string]any{"expectedOIDCIssuer": "https://issuer.example", "expectedIdentityPattern": "^x$"},
+		"versions":  []any{}}}
+}
+
+// contentHash: what VerifyIndex records for the content c (HashContentSubtree of the typed payload).
+func contentHash(c int) string {
+	b, err := json.Marshal(map[string]any{"connectors": contentJSON(c)})
+	must(err)
+	var p index.Payload
+	must(json.Unmarshal(b, &p))
+	h, err := index.HashContentSubtree(p.Connectors, p.Processors)
+	must(err)
+	return h
+}
+
+// envelope: an index of the given version and content, signed as the op says; a stale index
+// carries a timestamp older than the staleness window.
 func (s *signer) envelope(o hop) []byte {
 	ts := time.Now().UTC()
 	if !o.Fresh {
 		ts = ts.Add(-index.DefaultMaxStaleness - 48*time.Hour)
 	}
 	payload, err := json.Marshal(map[string]any{"schemaVersion": 1,
-		"index": map[string]any{"version": o.Version, "timestamp": ts.Format(time.RFC3339)}, "connectors": []any{}})
+		"index": map[string]any{"version": o.Version, "timestamp": ts.Format(time.RFC3339)}, "connectors": contentJSON(o.Content)})
 	must(err)
 	canon, err := index.Canonicalize(payload)
 	must(err)
-	key := s.priv
-	if !o.SigOK {
-		key = s.bad
+	var sigs []any
+	add := func(role, id, how string, key ed25519.PrivateKey) {
+		if how == "" {
+			return
+		}
+		if how != "good" {
+			key = s.bad
+		}
+		sigs = append(sigs, map[string]any{"role": role, "keyId": id, "algorithm": "ed25519",
+			"signature": base64.StdEncoding.EncodeToString(ed25519.Sign(key, canon))})
 	}
-	sig := ed25519.Sign(key, canon)
-	env, err := json.Marshal(map[string]any{"payload": json.RawMessage(payload), "signatures": []any{map[string]any{
-		"role": "root", "keyId": s.keyID, "algorithm": "ed25519", "signature": base64.StdEncoding.EncodeToString(sig)}}})
+	add("freshness", s.freshID, o.FSig, s.fresh)
+	add("root", s.rootID, o.Root, s.root)
+	if sigs == nil {
+		sigs = []any{}
+	}
+	env, err := json.Marshal(map[string]any{"payload": json.RawMessage(payload), "signatures": sigs})
 	must(err)
 	return env
 }
@@ -103,29 +146,94 @@ func readMark(statePath string) (int64, bool) {
 	return st.Version, true
 }
 
-// runHwm: part (d). A batch of one call is an exact differential (result class and the mark in
-// the state file afterwards); a larger batch runs its calls concurrently, each through its own
-// TrustedVerifier value on the same state file, while a poller keeps reading the mark.
+// readHash: the content on record as a content id (-1 none, -2 unknown).
+func readHash(statePath string) int {
+	st, err := index.LoadState(statePath)
+	if err != nil {
+		return -2
+	}
+	if st.LastVerifiedContentHash == "" {
+		return -1
+	}
+	for c := 0; c < 8; c++ {
+		if contentHash(c) == st.LastVerifiedContentHash {
+			return c
+		}
+	}
+	return -2
+}
+
+// runHwm: part (d). Consecutive single-call batches form one sequential case (exact
+// differential: result class and the mark in the state file after every call); a larger
+// batch runs its calls concurrently, each through its own TrustedVerifier value on the same
+// state file, while a poller keeps reading the mark.
 func (e *env) runHwm(c hcase) {
 	W := e.dir("d")
 	defer os.RemoveAll(W)
 	statePath := filepath.Join(W, ".registry", "index-state.json")
 	must(os.MkdirAll(filepath.Dir(statePath), 0o755))
-	if c.M0 != 0 {
-		must(index.SaveState(statePath, index.State{Version: c.M0}))
+	if c.M0 != 0 || c.H0 >= 0 {
+		st := index.State{Version: c.M0}
+		if c.H0 >= 0 {
+			st.LastVerifiedContentHash = contentHash(c.H0)
+		}
+		must(index.SaveState(statePath, st))
 	}
 	sg := newSigner(7)
-	mark := c.M0
+	call := func(envl []byte) string {
+		tv := &registry.TrustedVerifier{Anchors: sg.anchors, StatePath: statePath, LockTimeout: 20 * time.Second}
+		var err error
+		if !hx.Try(func() { _, err = tv.VerifyIndex(context.Background(), envl) }) {
+			return "OErr"
+		}
+		return classify(err)
+	}
+	mark, hash := c.M0, c.H0
+	if hash < -1 {
+		hash = -1
+	}
+	// pending sequential case
+	var seqOps []hop
+	var seqObs []string
+	var seqObsJ []map[string]any
+	seqM0, seqH0 := mark, hash
+	flush := func() {
+		if len(seqOps) == 0 {
+			return
+		}
+		ops := make([]string, len(seqOps))
+		bs := make([][]hop, len(seqOps))
+		for i, o := range seqOps {
+			ops[i] = o.coq()
+			bs[i] = []hop{o}
+		}
+		e.w.Add(map[string]any{"input": map[string]any{"kind": "hwm", "m0": seqM0, "h0": seqH0, "batches": bs},
+			"observed": map[string]any{"calls": seqObsJ}},
+			fmt.Sprintf("KHwmSeq %s %s %s %s", hx.Z(seqM0), hashCoq(seqH0), hx.List(ops), hx.List(seqObs)))
+		seqOps, seqObs, seqObsJ = nil, nil, nil
+	}
 	for _, batch := range c.Batches {
 		if len(batch) == 0 {
 			continue
 		}
-		m0 := mark
-		type out struct {
-			cls  string
-			mark int64
+		if len(batch) == 1 {
+			if len(seqOps) == 0 {
+				seqM0, seqH0 = mark, hash
+			}
+			cls := call(sg.envelope(batch[0]))
+			m, ok := readMark(statePath)
+			if !ok {
+				m = -999999
+			}
+			mark, hash = m, readHash(statePath)
+			seqOps = append(seqOps, batch[0])
+			seqObs = append(seqObs, hx.Pair(cls, hx.Z(m)))
+			seqObsJ = append(seqObsJ, map[string]any{"class": cls, "mark": m, "content": hash})
+			continue
 		}
-		outs := make([]out, len(batch))
+		flush()
+		m0, h0 := mark, hash
+		classes := make([]string, len(batch))
 		envs := make([][]byte, len(batch))
 		for i, o := range batch {
 			envs[i] = sg.envelope(o)
@@ -133,37 +241,26 @@ func (e *env) runHwm(c hcase) {
 		var polled []int64
 		var stop atomic.Bool
 		var pwg sync.WaitGroup
-		if len(batch) > 1 {
-			pwg.Add(1)
-			go func() {
-				defer pwg.Done()
-				for !stop.Load() {
-					if m, ok := readMark(statePath); ok {
-						if len(polled) == 0 || polled[len(polled)-1] != m {
-							polled = append(polled, m)
-						}
-					} else {
-						polled = append(polled, -999999) // an unreadable (torn) state file
+		pwg.Add(1)
+		go func() {
+			defer pwg.Done()
+			for !stop.Load() {
+				if m, ok := readMark(statePath); ok {
+					if len(polled) == 0 || polled[len(polled)-1] != m {
+						polled = append(polled, m)
 					}
+				} else {
+					polled = append(polled, -999999) // an unreadable (torn) state file
 				}
-			}()
-		}
+			}
+		}()
 		var wg sync.WaitGroup
 		for i := range batch {
 			wg.Add(1)
 			go func(i int) {
 				defer wg.Done()
-				tv := &registry.TrustedVerifier{Anchors: sg.anchors, StatePath: statePath, LockTimeout: 20 * time.Second}
-				var err error
-				if !hx.Try(func() { _, err = tv.VerifyIndex(context.Background(), envs[i]) }) {
-					outs[i].cls = "OErr"
-					return
-				}
-				outs[i].cls = classify(err)
+				classes[i] = call(envs[i])
 			}(i)
-			if len(batch) == 1 {
-				wg.Wait()
-			}
 		}
 		wg.Wait()
 		stop.Store(true)
@@ -172,59 +269,81 @@ func (e *env) runHwm(c hcase) {
 		if !ok {
 			mend = -999999
 		}
-		mark = mend
-		ops := make([]string, len(batch))
-		for i, o := range batch {
-			ops[i] = o.coq()
-		}
-		in := map[string]any{"kind": "hwm", "m0": m0, "batches": [][]hop{batch}}
-		if len(batch) == 1 {
-			e.w.Add(map[string]any{"input": in, "observed": map[string]any{"class": outs[0].cls, "mark": mend}},
-				fmt.Sprintf("KHwmSeq %s %s %s", hx.Z(m0), hx.List(ops), hx.List([]string{hx.Pair(outs[0].cls, hx.Z(mend))})))
-			continue
-		}
+		mark, hash = mend, readHash(statePath)
 		logItems := make([]string, len(batch))
-		classes := make([]string, len(batch))
-		for i := range batch {
-			logItems[i] = hx.Pair(ops[i], outs[i].cls)
-			classes[i] = outs[i].cls
+		for i, o := range batch {
+			logItems[i] = hx.Pair(o.coq(), classes[i])
 		}
 		pz := make([]string, len(polled))
 		for i, m := range polled {
 			pz[i] = hx.Z(m)
 		}
-		e.w.Add(map[string]any{"input": in, "observed": map[string]any{"classes": classes, "mark": mend, "polled": polled}},
-			fmt.Sprintf("KHwmBatch %s %s %s %s", hx.Z(m0), hx.List(logItems), hx.Z(mend), hx.List(pz)))
+		e.w.Add(map[string]any{"input": map[string]any{"kind": "hwm", "m0": m0, "h0": h0, "batches": [][]hop{batch}},
+			"observed": map[string]any{"classes": classes, "mark": mend, "content": hash, "polled": polled}},
+			fmt.Sprintf("KHwmBatch %s %s %s %s %s", hx.Z(m0), hashCoq(h0), hx.List(logItems), hx.Z(mend), hx.List(pz)))
 	}
+	flush()
 }
 
+// genHwm: root-signed and freshness-only indexes in random version order over a small set of
+// contents, so that a freshness-only index often finds its content on record and is accepted
+// between root-signed ones (and a version between the two is replayed afterwards).
 func genHwm(r *hx.Rand) hcase {
-	c := hcase{}
+	c := hcase{H0: -1}
 	if r.Chance(1, 2) {
 		c.M0 = int64(r.Range(1, 12))
+		if r.Chance(2, 3) {
+			c.H0 = r.Intn(2)
+		}
 	}
-	nb := r.Range(1, 6)
+	genOp := func() hop {
+		o := hop{Version: int64(r.Range(0, 14)), Root: "good", Content: r.Intn(2), Fresh: !r.Chance(1, 8)}
+		if r.Chance(1, 12) {
+			o.Content = 2
+		}
+		switch x := r.Intn(20); {
+		case x < 9: // root-signed only
+		case x < 11: // both signatures
+			o.FSig = "good"
+		case x < 17: // freshness-only re-sign
+			o.Root, o.FSig = "", "good"
+		case x < 18:
+			o.Root, o.FSig = "bad", "good"
+		case x < 19:
+			o.Root, o.FSig = "bad", ""
+		default:
+			o.Root, o.FSig = "", "bad"
+		}
+		if r.Chance(1, 25) {
+			o.Version = -int64(r.Range(1, 5))
+		}
+		return o
+	}
+	nb := r.Range(2, 8)
 	for b := 0; b < nb; b++ {
 		n := 1
-		if r.Chance(1, 3) {
+		if r.Chance(1, 4) {
 			n = r.Range(2, 6)
 		}
 		var batch []hop
 		for i := 0; i < n; i++ {
-			o := hop{Version: int64(r.Range(0, 14)), SigOK: !r.Chance(1, 7), Fresh: !r.Chance(1, 7)}
-			if r.Chance(1, 25) {
-				o.Version = -int64(r.Range(1, 5))
-			}
-			batch = append(batch, o)
+			batch = append(batch, genOp())
 		}
 		c.Batches = append(c.Batches, batch)
+	}
+	if r.Chance(1, 3) { // the shape: root vN, freshness-only vN+k over the same content, replay in between
+		n, k, ct := int64(r.Range(1, 6)), int64(r.Range(2, 6)), r.Intn(2)
+		c.Batches = append(c.Batches,
+			[]hop{{Version: n, Root: "good", Content: ct, Fresh: true}},
+			[]hop{{Version: n + k, FSig: "good", Content: ct, Fresh: true}},
+			[]hop{{Version: n + int64(r.Intn(int(k))), Root: "good", Content: ct, Fresh: true}})
 	}
 	return c
 }
 
 func hwmFromJSON(in map[string]any) hcase {
 	b, _ := json.Marshal(in)
-	var c hcase
+	c := hcase{H0: -1}
 	if err := json.Unmarshal(b, &c); err != nil {
 		panic(err)
 	}
